@@ -1,10 +1,11 @@
 """C03 stage 3 — the sign-case transformers of BD_Shape<T> (helper of checks/c03.py).
 
 proof:  PPLV.Props.C03Trans over the code-shaped model lean/PPLV/WR/Trans.lean (refine_no_check, add_constraint,
-        affine_image, generalized_affine_image(var), bounded_affine_image, unconstrain, for every bound type T through
-        the directed operations `Rnd`), and lean/PPLV/WR/TransOct.lean (Octagonal_Shape<T>::affine_image).
+        affine_image, generalized_affine_image(var), bounded_affine_image, unconstrain, affine_preimage,
+        generalized_affine_preimage(var), for every bound type T through the directed operations `Rnd`), and
+        lean/PPLV/WR/TransOct.lean (Octagonal_Shape<T>::affine_image).
 tie:    harness/c03_trans.cc calls the REAL transformers of BD_Shape<mpq_class | mpz_class | int8_t | double> (and
-        Octagonal_Shape<mpz_class | int8_t | mpq_class>::affine_image) on matrices written directly into `dbm`
+        Octagonal_Shape<mpz_class | int8_t | mpq_class | double>::affine_image) on matrices written directly into `dbm`
         (`#define private public`), journals the matrix before, the arguments and the matrix after (or E / the exception);
         the native driver pplv_wrt
           (a) replays the model with the rounding of T and demands the IDENTICAL matrix (mode dbl: the model with exact
@@ -74,7 +75,7 @@ def _bounds(mat):
     return out
 
 
-def structural_tags(ev):
+def structural_tags(ev, maxb=0):
     """the structural class of the input (the predicates of the open findings, as wr_common.overflow_tags builds them)"""
     tn = TNAME.get(ev["mode"], ev["mode"])
     tags = ["T_" + tn, "op_" + ev["op"]]
@@ -82,7 +83,7 @@ def structural_tags(ev):
         return tags
     tags.append("T_native_int")
     hi = HI_INT8
-    big = max(_bounds(ev["before"]) or [0])
+    big = max(_bounds(ev["before"]) + [maxb])        # maxb: the bounds after the closure at the head of the transformer
     ints = [1] + [abs(v) for v in _ints_of_args(ev["op"], ev["args"])]
     if max(ints) > hi:
         tags.append("coefficient_or_denominator_not_representable_in_T")
@@ -131,12 +132,17 @@ def _examine(ctx, journal, verdicts, harness_args, cov):
             counts["JUDGE-FAIL"] += 1
         replay = {"stage": "c03_trans", "history": [line], "driver": DRIVER, "verdicts": vs, "site": site, "type": tn,
                   "harness_args": harness_args + ["--id", vid],
-                  "how_to_replay": "bin/check C03 --replay <this file>   (or: echo '<history[0]>' | lean/.lake/build/bin/pplv_wrt)"}
+                  "how_to_replay": "bin/check C03 --replay <this file>   (or: echo '<history[0]>' > l.txt ; build/c03_trans-* --replay l.txt "
+                                   "| lean/.lake/build/bin/pplv_wrt ; the recorded outcome alone: lean/.lake/build/bin/pplv_wrt < l.txt)"}
         if kind in ("ok", "okle"):
             op, tag, jf = head[2], head[3], head[4] if len(head) > 4 else "-"
-            cov["branches"]["%s %s %s" % (tn, op, tag.split(":lb.")[0] if op == "baff" else tag)] += 1
-            if op == "baff" and ":lb." in tag:
-                cov["baff_lower_bound_forms"]["%s %s" % (tn, "lb." + tag.split(":lb.")[1])] += 1
+            if op == "baff" and ":lb." in tag:      # ub.<form of ub_expr>:lb.<form of lb_expr>/<sign of den>[/bigden]
+                ub, lb = tag.split(":lb.", 1)
+                lbf, _, sfx = lb.partition("/")
+                cov["branches"]["%s %s %s/%s" % (tn, op, ub, sfx)] += 1
+                cov["baff_lower_bound_forms"]["%s lb.%s/%s" % (tn, lbf, sfx)] += 1
+            else:
+                cov["branches"]["%s %s %s" % (tn, op, tag)] += 1
             cov["per_type_op"]["%s %s" % (tn, op)] += 1
             cov["sizes"][str(ev["n"])] += 1
             cov["closed_flag"][ev["closed"]] += 1
@@ -159,7 +165,8 @@ def _examine(ctx, journal, verdicts, harness_args, cov):
                             " (the real result still contains the exact result)", vs[0][:500], line[:400]))
                 ctx.violation(what, dict(replay, tags=tags), found_input=True, record={"site": site, "tags": tags})
         elif kind == "NAN":
-            tags = structural_tags(ev) + ["nan_entry" if "entry" in head[4:] else "nan_throw_int"]
+            maxb = next((int(x[5:]) for x in head if x.startswith("maxb=") and x[5:].lstrip("-").isdigit()), 0)
+            tags = structural_tags(ev, maxb) + ["nan_entry" if "entry" in head[4:] else "nan_throw_int"]
             cov["nan"]["%s %s %s" % (tn, ev["op"], "threw_int" if "threw" in head[4:] else "entry")] += 1
             # the open findings: same site, predicate = the structural class of the input
             pred = ("coefficient_or_denominator_not_representable_in_T" if "coefficient_or_denominator_not_representable_in_T" in tags
@@ -193,9 +200,7 @@ def _examine(ctx, journal, verdicts, harness_args, cov):
 
 def run(ctx):
     """returns the list of broken proof obligations (the caller reports them)."""
-    broken = []
-    if os.path.exists(os.path.join(LEAN, "PPLV", "Props", "C03Trans.lean")):
-        broken += ctx.prove(PROPS)
+    broken = ctx.prove(PROPS)
     quick = ctx.tier == "quick"
     drv = ctx.ensure_pplv(DRIVER)
     h = ctx.compile_harness(HARNESS)
@@ -235,7 +240,8 @@ def run(ctx):
     ctx.assumptions += [
         "stage 3 (transformers): the model is tied to the code by exact replay of every journalled call (mpq, mpz, int8); for "
         "double only `model with exact arithmetic <= real matrix` is demanded (binary rounding is not reproduced) and the real "
-        "matrix is judged sound by K1; calls whose coefficients are not representable in T are outside the model (counted)",
+        "matrix is judged sound by K1; calls with a coefficient that T cannot represent are outside the model (counted as skip, "
+        "still judged by K1); calls where only the denominator is not representable are replayed (branch tag .../bigden)",
     ]
     shutil.rmtree(wd, ignore_errors=True)
     return broken
@@ -249,30 +255,25 @@ def is_replay(path):
 
 
 def replay(ctx, path):
-    """bin/check C03 --replay <file>: re-execute the recorded call on the current tree (same seed, same batch) and judge
-    it again; the recorded journal line is judged again as well."""
+    """bin/check C03 --replay <file>: re-execute the recorded call (matrix, closed flag, arguments of the recorded journal
+    line; harness --replay) on the current tree and judge the fresh outcome with the driver."""
     obj = json.load(open(path))
     drv = ctx.ensure_pplv(DRIVER)
     h = ctx.compile_harness(HARNESS)
-    a = obj.get("harness_args", [])
-    vid = a[a.index("--id") + 1] if "--id" in a else ""
-    lines = list(obj.get("history", []))
-    if vid:
-        seed, batch = vid.split(".")[0], int(vid.split(".")[1])
-        get = lambda k, d: a[a.index(k) + 1] if k in a else d
-        rc, out, err = ctx.run([h, "--seed", seed, "--first", str(batch), "--last", str(batch + 1), "--per", get("--per", "30"),
-                                "--oct", get("--oct", "0")], timeout=600)
-        now = [l for l in (out or "").splitlines() if l.split(None, 1)[:1] == [vid]]
-        print("current tree: %s" % (now[0][:600] if now else "(the case is not produced any more)"))
-        lines = now + lines
     wd = ctx.workdir()
-    jp = os.path.join(wd, "replay.txt")
-    open(jp, "w").write("\n".join(lines) + "\n")
+    rp = os.path.join(wd, "recorded.txt")
+    open(rp, "w").write("\n".join(obj.get("history", [])) + "\n")
+    print("recorded    : %s" % "\n".join(obj.get("history", []))[:700])
+    jp = os.path.join(wd, "replay.journal.txt")
+    rc, _, err = ctx.run([h, "--replay", rp], stdout_path=jp, timeout=600)
+    now = open(jp).read().splitlines()
+    print("current tree: %s" % "\n".join(now)[:700])
     rc, out, err = ctx.run([drv], stdin_path=jp, timeout=600)
-    bad = [l for l in (out or "").splitlines() if l.split()[:1] and l.split()[0] in ("MISMATCH", "JUDGE-FAIL", "NAN", "CRASH")]
-    print("\n".join((out or "").splitlines()))
+    verd = (out or "").splitlines()
+    print("\n".join(verd))
+    bad = [l for l in verd if l.split()[:1] and l.split()[0] in ("MISMATCH", "JUDGE-FAIL", "NAN", "CRASH")]
     if bad:
         print("VIOLATION property=%s replay=%s" % (ctx.pid, path))
         return 1
-    print("no difference when re-judged")
+    print("no difference when re-executed on the current tree")
     return 0
